@@ -55,7 +55,7 @@ ASSUMPTIONS = [
 REQUIRED_COUNTERS = [
     "structs_judged", "encodes_compared", "lib_decodes_compared", "reply_decodes_compared",
     "negotiation_pairs_checked", "builder_param_cases_checked", "response_type_pairs_checked",
-    "header_cases_checked", "primitive_cases_checked",
+    "header_cases_checked", "primitive_cases_checked", "negotiation_unadvertised_key_checked",
 ]
 
 MAX_WITNESS_PER_MECH = 3
@@ -1074,7 +1074,24 @@ def check_negotiation(L, rec: Rec, rng):
                     k, v, *_ = wire.decode_request_header(hb)
                     if (k, v) != (B.API_KEY, expect):
                         rec.fail(True, mech, f"{B.__name__}: header carries ({k},{v}) instead of ({B.API_KEY},{expect})", w)
-        # unknown api key (not part of the statement): observation only
+        # a broker that advertises versions, but none for this API key (an older broker): no version lies inside an
+        # advertised range, so nothing may be built (ApiVersions itself is the documented exception)
+        if not getattr(B, "ALLOW_UNKNOWN_API_VERSION", False):
+            other = {k: (0, 9) for k in (0, 1, 2, 3, 18) if k != B.API_KEY}
+            rec.count("negotiation_unadvertised_key_checked")
+            rec.res["evaluations"] += 1
+            try:
+                got = inst.prepare(other)
+            except Exception:  # noqa: BLE001
+                pass
+            else:
+                gv = getattr(type(got), "API_VERSION", getattr(got, "API_VERSION", None))
+                rec.fail(True, f"{snake(B.__name__)}_prepare_builds_for_unadvertised_api_key",
+                         f"{B.__name__}.prepare() built {type(got).__name__} (v{gv}) although the broker's version table "
+                         f"{sorted(other)} does not advertise API key {B.API_KEY}",
+                         {"builder": B.__name__, "broker_table": {str(k): list(v) for k, v in other.items()},
+                          "shard": {"kind": "static"}})
+        # no version table at all (not part of the statement): observation only
         try:
             got = inst.prepare({})
             rec.note("observations", f"prepare_without_versions: {B.__name__} -> {type(got).__name__}")
